@@ -768,6 +768,78 @@ M("C17", "R-avg-accumulate-reordered", IUF, '''                N_valid_percentag
                 mean_value += weight * percentage
                 N_valid_percentages += 1''', None)
 
+# ---------------------------------------------------------------------------- C14
+PARF = "src/optimizer/parameters.py"
+M("C14", "seafood-writes-shared-population", "src/food_system/seafood.py",
+  '''        self.NMONTHS = constants_for_params["NMONTHS"]''',
+  '''        self.NMONTHS = constants_for_params["NMONTHS"]
+        Food.conversions.population = constants_for_params["POP"]''', "C14.STATE")
+M("C14", "memoised-multipliers", UCF,
+  '''        conversions = self.get_conversions()
+
+        billion_kcal_to_billion_people = 1 / conversions.kcals_monthly''',
+  '''        conversions = self.get_conversions()
+        if hasattr(conversions, "_kcal_multiplier_cache"):
+            return conversions._kcal_multiplier_cache
+        conversions._kcal_multiplier_cache = None
+
+        billion_kcal_to_billion_people = 1 / conversions.kcals_monthly''', "C14.STATE")
+M("C14", "settings-after-scp", PARF,
+  '''        constants_out = self.set_nutrition_per_month(constants_out, constants_inputs)
+''', '', "C14.RESET", more=[(PARF, '''        constants_out, time_consts, cellulosic_sugar = self.init_cs_params(''',
+  '''        constants_out = self.set_nutrition_per_month(constants_out, constants_inputs)
+        constants_out, time_consts, cellulosic_sugar = self.init_cs_params(''')])
+M("C14", "conditional-reset", UCF,
+  '''        self.population = population
+
+        self.NUTRITION_PROPERTIES_ASSIGNED = True''',
+  '''        if population is not None:
+            self.population = population
+
+        self.NUTRITION_PROPERTIES_ASSIGNED = True''', "C14.RESET")
+M("C14", "setting-depends-on-previous", UCF,
+  '''        self.kcals_monthly = kcals_daily * self.days_in_month''',
+  '''        self.kcals_monthly = max(kcals_daily * self.days_in_month, getattr(self, "kcals_monthly", 0))''', "C14.RESET")
+M("C14", "round2-shares-dict", PARF,
+  '''        time_consts_round2 = copy.deepcopy(time_consts_round1)''', '''        time_consts_round2 = time_consts_round1''', "C14.FRESH")
+M("C14", "module-level-cache", PARF,
+  '''class Parameters:''', '''_SEAWEED_CACHE = {}
+
+
+class Parameters:''', "C14.STATE", more=[(PARF, '''        constants_out = self.init_scenario(constants_out, constants_inputs)
+''', '''        constants_out = self.init_scenario(constants_out, constants_inputs)
+        _SEAWEED_CACHE[constants_inputs["COUNTRY_CODE"]] = constants_inputs["POP"]
+''')])
+M("C14", "randomised-tiebreak", OPT,
+  '''import sys
+import pulp''', '''import sys
+import random
+import pulp''', "C14.DET", more=[(OPT, '''        PENALTY_COST = 100  # Adjust as needed, this is the weight of the penalty''',
+  '''        PENALTY_COST = 100 + random.random()  # Adjust as needed, this is the weight of the penalty''')])
+M("C14", "cached-parameters-object", RUNF,
+  '''        meat_dictionary_round2 = None
+        constants_loader = Parameters()''', '''        meat_dictionary_round2 = None
+        constants_loader = self._shared_parameters''', "C14.FRESH",
+  more=[(RUNF, '''    def __init__(self):
+        pass''', '''    _shared_parameters = Parameters()
+
+    def __init__(self):
+        pass''')])
+M("C14", "default-arg-written", RMNTF,
+  '''        assert len(scenario_option) > 0, "ERROR: a scenario must be specified"''',
+  '''        assert len(scenario_option) > 0, "ERROR: a scenario must be specified"
+        countries_list.append("!ATA")''', "C14.STATE")
+M("C14", "partial-settings-call", "src/optimizer/interpret_results.py",
+  '''include_fat=''', '''include_fat_=''', "C14.STATE", nth=1)
+M("C14", "R-days-in-month-to-init", UCF,
+  '''        self.days_in_month = 30
+
+        self.include_fat = include_fat''', '''        self.include_fat = include_fat''', None,
+  more=[(UCF, '''        self.NUTRITION_PROPERTIES_ASSIGNED = False
+''', '''        self.NUTRITION_PROPERTIES_ASSIGNED = False
+        self.days_in_month = 30
+''')])
+
 # ---------------------------------------------------------------------------- runner
 
 COPY = ["src", "scenarios", "scripts", "plot_manuscript_figures.py", "tests"]
